@@ -275,4 +275,71 @@ theorem length_encodeBigInt_le (k : Nat) : (C11.encodeBigInt k).length ≤ k + 5
       · have := (Scale.length_leMin_le k k).2 (lt_pow256_self k)
         simp only [List.length_cons]; omega
 
+/-! ## state response -/
+
+theorem stateEntriesOf_len : ∀ (gs : List WField) (es : List (Bytes × Bytes)),
+    stateEntriesOf gs = some es → es.length ≤ gs.length := by
+  intro gs
+  induction gs with
+  | nil => intro es h; simp only [stateEntriesOf, Option.some.injEq] at h; subst h; simp
+  | cons g gs ih =>
+    intro es h
+    simp only [stateEntriesOf] at h
+    split at h
+    · rename_i b hnum hval
+      cases hp : goParse b with
+      | none => simp [hp] at h
+      | some hs =>
+        simp only [hp] at h
+        cases hr : stateEntriesOf gs with
+        | none => simp [hr] at h
+        | some es' =>
+          simp only [hr, Option.map_some, Option.some.injEq] at h
+          subst h
+          have := ih es' hr
+          simp only [List.length_cons]; omega
+    · have := ih es h
+      simp only [List.length_cons]; omega
+
+/-- the copy loops of `StateResponse.Decode` run at most once per byte of the response -/
+theorem kvEntriesOf_size : ∀ (fs : List WField) (es : List KVEntry),
+    kvEntriesOf fs = some es →
+      (es.map (fun e => 1 + e.entries.length)).sum ≤ payloadSum fs + fs.length := by
+  intro fs
+  induction fs with
+  | nil => intro es h; simp only [kvEntriesOf, Option.some.injEq] at h; subst h; simp
+  | cons f fs ih =>
+    intro es h
+    simp only [kvEntriesOf] at h
+    split at h
+    · rename_i b hnum hval
+      cases hp : goParse b with
+      | none => simp [hp] at h
+      | some gs =>
+        simp only [hp] at h
+        cases hk : kvEntryOf gs with
+        | none => simp [hk] at h
+        | some e =>
+          simp only [hk] at h
+          cases hr : kvEntriesOf fs with
+          | none => simp [hr] at h
+          | some es' =>
+            simp only [hr, Option.map_some, Option.some.injEq] at h
+            subst h
+            have h1 := goParse_size b gs hp
+            have h2 : e.entries.length ≤ gs.length := by
+              unfold kvEntryOf at hk
+              cases hse : stateEntriesOf gs with
+              | none => simp [hse] at hk
+              | some l =>
+                simp only [hse, Option.some.injEq] at hk
+                subst hk
+                exact stateEntriesOf_len gs l hse
+            have h3 := ih es' hr
+            simp only [List.map_cons, List.sum_cons, payloadSum, hval, List.length_cons]
+            omega
+    · have := ih es h
+      simp only [payloadSum, List.length_cons]
+      omega
+
 end Gossamer.C33
